@@ -79,14 +79,14 @@ PROPS = {
         level_text="Proof for the modelled code: the only panic the read path can produce is the documented one at the 1000th call on a failed connection; header reads and frame skips are bounded by what is asked for / present and end with an error on a short stream (no waiting for a claimed length); the models of the reader loops and of the header parsers are total functions whose recursion is bounded by the input length (accepted by Lean's termination checker). Go-level panics cannot arise in the model: they are covered by the regenerated inventory of every index / slice / make / type-assertion site in the functions fed by network input (a new or changed site breaks the tie) and by fuzz correspondence: mutated and random frame streams into connections of both roles with the model predicting every outcome exactly, random and mutated replies to Dial and to CONNECT, junk header values through the exported helpers, all under recover(), a watchdog and a TotalAlloc bound.",
         level_note="Partial: robustness of net/http, net/url, bufio, compress/flate and encoding/base64 internals is assumed; allocation is bounded by measurement in the fuzz streams plus the make-site inventory, not by a theorem about the Go allocator. Fuzzing supports the tie and the search for failing inputs; it is not the proof.",
         lean=["WS.Props.C07"],
-        streams=[("rfuzz", 1200, 30000), ("dfuzz", 200, 4000), ("unit", 400, 8000), ("srv", 300, 6000), ("cli", 300, 6000)],
+        streams=[("rfuzz", 1200, 30000), ("dfuzz", 200, 4000), ("unit", 400, 8000), ("srv", 300, 6000), ("cli", 300, 6000), ("rviol", 300, 6000)],
     ),
     "C08": P(
         technique="Lean 4 theorems over the reader+writer model + differential correspondence",
         level_text="Proof: while a conformant message is read to its end the handler log grows by exactly the interleaved pings/pongs, in wire order, with exact payloads (any fragmentation, chunking, read sizes); a ping of 0..125 bytes is answered by one pong with the identical payload; a close with an accepted code and UTF-8 reason is handed to the handler once, echoed with the same code, and reported as CloseError{code, reason}; a handler error is permanent. Tie: controls at every position of 1-5-fragment messages, payload lengths {0,1,2,7,50,124,125}, all accepted close-code classes, default / recording / failing handlers, both roles; handler log and reply frames compared exactly; oracle: handler log = control frames in wire order, pongs = pings.",
         level_note="Default-handler theorems are proved for either role (default_*_any_role: a server-side reader unmasks with the frame's key); handlers_exactly_once is role-generic.",
         lean=["WS.Props.C08"],
-        streams=[("rconf", 900, 16000), ("rviol", 300, 6000)],
+        streams=[("rconf", 900, 16000), ("rviol", 300, 6000), ("glue", 300, 6000)],
         assumptions=[ASSUME_BUFIO],
     ),
     "C09": P(
@@ -119,7 +119,7 @@ PROPS = {
         level_text="Proof: Upgrade succeeds iff every condition of the chain holds; 403 exactly for the origin, 426 (with the Connection token present) exactly for a missing Upgrade token; compression is announced iff enabled and an extension named permessage-deflate was offered; the selected subprotocol was offered and is supported; whatever bytes the application supplies as header values or subprotocol the 101 has exactly the expected lines (no_injection, incl. the F5 fix); Accept = base64(SHA-1(key++GUID)) with the GUID of today's source (RFC vector checked in the kernel); the rejection chain recognised in today's Upgrade is the modelled one; the header list scanner is sound on arbitrary bytes (a reported token is an OWS-trimmed comma-separated element equal under ASCII folding) and complete on well-formed 1#token lists. Tie: handshakes from the grammar (OWS, case, extra tokens, several lines, near-miss tokens, malformed lists, keys of many decoded lengths, offers with parameters and quoted strings), all Upgrader settings, response headers with control bytes; model predicts status / 101 lines / reader and buffer choice exactly; oracle judges with an independent list grammar, SHA-1 and line splitter.",
         level_note="net/http (hijack, http.Error) and url.Parse are environment; header *names* supplied by the application are outside the property; on non-well-formed token lists only soundness is claimed.",
         lean=["WS.Props.C12"],
-        streams=[("srv", 1500, 30000), ("unit", 300, 6000)],
+        streams=[("srv", 1500, 30000), ("unit", 300, 6000), ("origin", 300, 4000)],
     ),
     "C13": P(
         technique="Lean 4 theorem (full characterisation of the folding comparison, all byte strings) + differential correspondence",
